@@ -61,8 +61,25 @@ func execCasterWord(t *trace, script []string) {
 			t.Line(line, casterWordCall(func() int { return x.Add(int(d)) }, x))
 		case len(f) == 2 && f[0] == "send":
 			w := bigbuff.VerifChanCasterState(x)
-			if hi := uint32(w >> 32); uint32(w) == hi && hi > 16 {
+			if hi := uint32(w >> 32); uint32(w) == hi && hi > 16 && hi <= math.MaxInt32 {
 				t.Line(line, "skipped") // more sends than the buffer takes: would block
+				continue
+			}
+			if hi := uint32(w >> 32); hi > math.MaxInt32 {
+				// a corrupted count (out of range): Send must refuse (panic) at once; if it arms instead it blocks for ever on a
+				// broadcast to 2^31 receivers — watch it from outside and give the caster up
+				done := make(chan string, 1)
+				go func() { done <- casterWordCall(func() int { return x.Send(atoi(f[1])) }, x) }()
+				select {
+				case r := <-done:
+					t.Line(line, r)
+				case <-time.After(time.Second):
+					t.Line(line, "armed-on-a-corrupted-count-and-blocked")
+					return
+				}
+				for len(c) > 0 {
+					<-c
+				}
 				continue
 			}
 			t.Line(line, casterWordCall(func() int { return x.Send(atoi(f[1])) }, x))
@@ -87,6 +104,9 @@ func genCasterWord(r *rng.R, tier string, i int) []string {
 		}
 		var d int64
 		switch {
+		case bad && r.Chance(25):
+			s = append(s, fmt.Sprintf("send %d", 1+r.Intn(99))) // a Send on whatever word the bad Add left
+			continue
 		case bad:
 			d = []int64{0, 1, -1, 2, -2, int64(r.Intn(5)) - 2, big[r.Intn(len(big))]}[r.Intn(7)]
 		case r.Chance(12):
